@@ -140,7 +140,18 @@ def lineage_trace(rng, uni, mp, ps, g, cls, name, steps=14):
                 blobs.append(b)
         elif op == "restore" and blobs:
             n += 1
-            if r.restore("v%d" % n, cls, ps, rng.choice(blobs)) is not None:
+            b = rng.choice(blobs)
+            if rng.random() < 0.4:                 # the same object in another concrete JSON syntax (key order, whitespace)
+                f = json.loads(b.decode("ascii"))
+                keys = list(f)
+                rng.shuffle(keys)
+                b = (json.dumps({k: f[k] for k in keys}, indent=rng.choice([None, 0, 2]), separators=rng.choice([None, (",", ":"), (" , ", " : ")]))
+                     + rng.choice(["", "\n", "  "])).encode("ascii")
+                i = r.t.restore_raw(cls, ps, b)
+                if i is not None:
+                    r.inst["v%d" % n] = i
+                    fam.append("v%d" % n)
+            elif r.restore("v%d" % n, cls, ps, b) is not None:
                 fam.append("v%d" % n)
         elif op == "start":
             r.start(var, mp.stream_for(g, rng.randrange(q)))
